@@ -40,7 +40,9 @@ import (
 //
 // Environment recipes: tick (both directions delivered), drop (N->R certificate tx lost = a
 // skipped rotation), stale (N does not see R's newest locked batch = a skipped rotation the
-// other way), fallback (N signals the liveness fallback; executed by N's next block).
+// other way), fallback (N signals the liveness fallback; executed by N's next block; the
+// certificate of the signalling block still reaches R), fallback+drop (the same with that
+// certificate lost: the root chain really is not taking N's certificates).
 
 const (
 	kA, kP, kQ = 1, 2, 3 // trader, genesis liquidity provider, newcomer liquidity provider
@@ -98,7 +100,7 @@ func (o BOp) String() string {
 // BAlphabet is the recipe alphabet of part B (the same for every reserve configuration).
 func BAlphabet(thorough bool) []BOp {
 	a := []BOp{
-		{Kind: "tick"}, {Kind: "drop"}, {Kind: "stale"}, {Kind: "fallback"},
+		{Kind: "tick"}, {Kind: "drop"}, {Kind: "stale"}, {Kind: "fallback"}, {Kind: "fallback+drop"},
 		{Kind: "order", Chain: "N", Amt: "large", Req: "at"},
 		{Kind: "order", Chain: "N", Amt: "large", Req: "below"},
 		{Kind: "order", Chain: "N", Amt: "one", Req: "at"},
@@ -272,6 +274,7 @@ type bWorld struct {
 	syncStreak      int
 	warmup          bool
 	items           map[string]*bItem
+	once            map[string]bool // chain:kind:id -> an LP operation already took effect on that chain
 	uses            map[string]int
 	stats           []string
 	names           []string
@@ -323,7 +326,7 @@ func newBWorld(cfg BCfg) (*bWorld, error) {
 		rc.Close()
 		return nil, err
 	}
-	w := &bWorld{cfg: cfg, R: &bChain{"R", 1, 2, rc}, N: &bChain{"N", 2, 1, nc}, items: map[string]*bItem{}, uses: map[string]int{}}
+	w := &bWorld{cfg: cfg, R: &bChain{"R", 1, 2, rc}, N: &bChain{"N", 2, 1, nc}, items: map[string]*bItem{}, uses: map[string]int{}, once: map[string]bool{}}
 	return w, nil
 }
 
@@ -383,6 +386,8 @@ func (w *bWorld) userTxs(op BOp, sr, sn *bScan) []bUserTx {
 	if op.Chain == "N" {
 		ch, own, other = w.N, sn, sr
 	}
+	// per-recipe running number; the recipe name also goes into the memo because two recipes may
+	// produce byte-identical messages under degenerate reserves
 	nonce := func(key string) uint64 { w.uses[key]++; return uint64(w.uses[key]) }
 	large := w.cfg.large(op.Chain)
 	mk := func(who int, amtClass, reqClass string) bUserTx {
@@ -404,7 +409,7 @@ func (w *bWorld) userTxs(op BOp, sr, sn *bScan) []bUserTx {
 			req = 1
 		}
 		key := fmt.Sprintf("order/%s/%s/%s", op.Chain, amtClass, reqClass)
-		tx := Tx(env.BLS(who), &fsm.MessageDexLimitOrder{ChainId: ch.counter, AmountForSale: dX, RequestedAmount: req, Address: addr(who)}, ch.id, 0, nonce(key), "")
+		tx := Tx(env.BLS(who), &fsm.MessageDexLimitOrder{ChainId: ch.counter, AmountForSale: dX, RequestedAmount: req, Address: addr(who)}, ch.id, 0, nonce(key), key)
 		return bUserTx{tx, "order", who, dX, req, op.Chain}
 	}
 	switch op.Kind {
@@ -414,11 +419,11 @@ func (w *bWorld) userTxs(op BOp, sr, sn *bScan) []bUserTx {
 		return []bUserTx{mk(kA, "large", "at"), mk(kA, "large", "above")}
 	case "deposit":
 		key := fmt.Sprintf("deposit/%s/%d", op.Chain, op.Who)
-		tx := Tx(env.BLS(op.Who), &fsm.MessageDexLiquidityDeposit{ChainId: ch.counter, Amount: large, Address: addr(op.Who)}, ch.id, 0, nonce(key), "")
+		tx := Tx(env.BLS(op.Who), &fsm.MessageDexLiquidityDeposit{ChainId: ch.counter, Amount: large, Address: addr(op.Who)}, ch.id, 0, nonce(key), key)
 		return []bUserTx{{tx, "deposit", op.Who, large, 0, op.Chain}}
 	case "withdraw":
 		key := fmt.Sprintf("withdraw/%s/%d/%d", op.Chain, op.Who, op.Pct)
-		tx := Tx(env.BLS(op.Who), &fsm.MessageDexLiquidityWithdraw{ChainId: ch.counter, Percent: op.Pct, Address: addr(op.Who)}, ch.id, 0, nonce(key), "")
+		tx := Tx(env.BLS(op.Who), &fsm.MessageDexLiquidityWithdraw{ChainId: ch.counter, Percent: op.Pct, Address: addr(op.Who)}, ch.id, 0, nonce(key), key)
 		return []bUserTx{{tx, "withdraw", op.Who, 0, 0, op.Chain}}
 	}
 	return nil
@@ -566,7 +571,7 @@ func (w *bWorld) analyze(ctx *bBlockCtx) {
 		x = bi(ctx.delivered.PoolSize)
 	}
 	var remotePaid []uint64
-	nRemoteSwaps := 0
+	nRemoteSwaps, nRemoteLP := 0, 0
 	for _, ev := range ctx.cm.BlockResult.Events {
 		switch m := ev.Msg.(type) {
 		case *lib.Event_DexSwap:
@@ -623,6 +628,11 @@ func (w *bWorld) analyze(ctx *bBlockCtx) {
 		case *lib.Event_DexLiquidityWithdrawal:
 			wd := m.DexLiquidityWithdrawal
 			outcome = append(outcome, "withdraw-executed")
+			if k := X.name + ":withdraw:" + hx(wd.OrderId); w.once[k] {
+				w.bad(twice(ctx, "withdrawal-executed-twice"), tag+fmt.Sprintf("withdrawal request %x (%d%%) pays out a second time on this chain (now %d)", wd.OrderId, wd.Percent, wd.LocalAmount))
+			} else {
+				w.once[k] = true
+			}
 			holder := pts[hx(ev.Address)]
 			if holder == nil {
 				holder = new(big.Int)
@@ -662,6 +672,12 @@ func (w *bWorld) analyze(ctx *bBlockCtx) {
 					x.Add(x, bi(d.Amount))
 				}
 				outcome = append(outcome, "remote-deposit-minted")
+				nRemoteLP++
+				if k := X.name + ":deposit:" + hx(d.OrderId); w.once[k] {
+					w.bad(twice(ctx, "deposit-minted-twice"), tag+fmt.Sprintf("counter-chain deposit %x mints points a second time on this chain (now %d)", d.OrderId, d.Points))
+				} else {
+					w.once[k] = true
+				}
 			}
 			total.Add(total, bi(d.Points))
 			if pts[hx(ev.Address)] == nil {
@@ -767,7 +783,11 @@ func (w *bWorld) analyze(ctx *bBlockCtx) {
 		w.bad("asset-not-conserved", tag+fmt.Sprintf("users + liquidity pool + holding pool changed by %s in one block", tot))
 	}
 	// did this block execute the delivered batch? (it then rotated with ReceiptHash = hash(delivered))
-	if ctx.delivered != nil && a.Locked != nil && !bytes.Equal(lockedId(a.Locked), lockedId(b.Locked)) && bytes.Equal(a.Locked.ReceiptHash, canonicalHash(ctx.delivered)) && !ctx.delivered.IsEmpty() {
+	// (a locked batch that already answered the delivered batch and is merely re-locked, with no swap
+	// or LP event in the block, is not an execution)
+	alreadyAnswered := ctx.delivered != nil && b.Locked != nil && bytes.Equal(b.Locked.ReceiptHash, canonicalHash(ctx.delivered))
+	if ctx.delivered != nil && a.Locked != nil && !bytes.Equal(lockedId(a.Locked), lockedId(b.Locked)) && bytes.Equal(a.Locked.ReceiptHash, canonicalHash(ctx.delivered)) && !ctx.delivered.IsEmpty() &&
+		(!alreadyAnswered || nRemoteSwaps > 0 || nRemoteLP > 0) {
 		outcome = append(outcome, "batch-executed")
 		rc := a.Locked.Receipts
 		if len(rc) != len(ctx.delivered.Orders) && len(ctx.delivered.Orders) != 0 {
@@ -779,7 +799,7 @@ func (w *bWorld) analyze(ctx *bBlockCtx) {
 				continue
 			}
 			if it.CounterSeen {
-				w.bad("batch-executed-twice", tag+fmt.Sprintf("order %s of chain %s was executed a second time", it.Id, it.Origin))
+				w.bad(twice(ctx, "batch-executed-twice"), tag+fmt.Sprintf("order %s of chain %s was executed a second time (first payout %d, now %d)", it.Id, it.Origin, it.CounterPaid, rc[i]))
 			}
 			it.CounterSeen, it.CounterPaid = true, rc[i]
 		}
@@ -799,6 +819,15 @@ func (w *bWorld) analyze(ctx *bBlockCtx) {
 		o = "idle"
 	}
 	w.stats = append(w.stats, X.name+":"+o)
+}
+
+// twice names the class of a second execution: the liveness fallback re-running the root batch
+// is one class whatever kind of operation is hit first.
+func twice(ctx *bBlockCtx, generic string) string {
+	if ctx.fallbackExec {
+		return "liveness-fallback-reexecutes-root-batch"
+	}
+	return generic
 }
 
 func lockedId(b *lib.DexBatch) []byte {
@@ -878,7 +907,7 @@ func (w *bWorld) tick(op BOp) (enabled bool) {
 		}
 	}
 	fresh := w.snapshotRoot(false)
-	if op.Kind == "fallback" {
+	if op.Kind == "fallback" || op.Kind == "fallback+drop" {
 		// controller precondition: N's locked batch is waiting and the root chain (as N sees it) has not answered it
 		if sn.Locked == nil || sn.Locked.IsEmpty() || bytes.Equal(fresh.ReceiptHash, sn.Locked.Hash()) || w.pendingFallback {
 			return false
@@ -921,7 +950,7 @@ func (w *bWorld) tick(op BOp) (enabled bool) {
 		}
 	}
 	flagged := false
-	cmN, err := w.N.c.StepFast(env.BlockSpec{Txs: txN, Proposer: kV, Results: w.nResults(op.Kind == "fallback", &flagged)},
+	cmN, err := w.N.c.StepFast(env.BlockSpec{Txs: txN, Proposer: kV, Results: w.nResults(op.Kind == "fallback" || op.Kind == "fallback+drop", &flagged)},
 		&env.StepOpts{RootDex: jsonTrip(w.rootSnap), Committee: &vs,
 			View: &lib.View{NetworkId: env.NetworkID, ChainId: 2, Height: w.N.c.Height(), RootHeight: rootH, Phase: lib.Phase_PRECOMMIT_VOTE}})
 	if err != nil {
@@ -944,7 +973,7 @@ func (w *bWorld) tick(op BOp) (enabled bool) {
 	// ---------------- R block
 	var certTx []byte
 	var deliveredR *lib.DexBatch
-	if op.Kind != "drop" {
+	if op.Kind != "drop" && op.Kind != "fallback+drop" {
 		q := cmN.QC
 		qc := &lib.QuorumCertificate{Header: q.Header, Results: q.Results, ResultsHash: q.ResultsHash, BlockHash: q.BlockHash, ProposerKey: q.ProposerKey, Signature: q.Signature}
 		certTx = Tx(env.BLS(kV), &fsm.MessageCertificateResults{Qc: qc}, 1, 0, q.Header.Height, "")
@@ -1008,7 +1037,9 @@ func (w *bWorld) key() string {
 		}
 		return jsonTrip(b).Hash()
 	}
-	rel := func(a *lib.DexBatch, b *lib.DexBatch) bool { return a != nil && b != nil && bytes.Equal(a.ReceiptHash, h(b)) }
+	rel := func(a *lib.DexBatch, b *lib.DexBatch) bool {
+		return a != nil && b != nil && bytes.Equal(a.ReceiptHash, h(b))
+	}
 	same := func(a, b *lib.DexBatch) bool { return bytes.Equal(h(a), h(b)) }
 	fmt.Fprintf(&sb, "rel R<-N:%v N<-R:%v snap=R:%v snap<-N:%v N<-snap:%v gate:%v fb:%v fbever:%v streak:%d", rel(sr.Locked, sn.Locked), rel(sn.Locked, sr.Locked),
 		same(w.rootSnap, w.snapshotRoot(false)), rel(w.rootSnap, sn.Locked), rel(sn.Locked, w.rootSnap), w.lastRootInQC != nil, w.pendingFallback, w.fallbackEver, min(w.syncStreak, 2))
@@ -1024,17 +1055,26 @@ func (w *bWorld) key() string {
 		it := w.items[id]
 		fmt.Fprintf(&sb, "|%s:%s:%v:%d:%d", short([]byte(id)), it.State, it.CounterSeen, it.CounterPaid, it.OriginDY)
 	}
+	ok := make([]string, 0, len(w.once))
+	for k := range w.once {
+		ok = append(ok, k)
+	}
+	sort.Strings(ok)
+	fmt.Fprintf(&sb, "|once:%d", len(ok))
 	return sb.String()
 }
 
 // Debug makes ExecB print every step (probe / replay use).
 var Debug = false
 
-func indent(s string) string { return "      " + strings.ReplaceAll(strings.TrimRight(s, "\n"), "\n", "\n      ") + "\n" }
+func indent(s string) string {
+	return "      " + strings.ReplaceAll(strings.TrimRight(s, "\n"), "\n", "\n      ") + "\n"
+}
 
 // ExecB replays one recipe path of part B on a fresh pair of chains.
 func ExecB(cfgName string, thorough bool, path []int) (res mc.ExecResult) {
 	alpha := BAlphabet(thorough)
+	cfgName = strings.SplitN(cfgName, "#", 2)[0] // "<reserves>#<slice label>"
 	w, err := newBWorld(bCfgByName(cfgName))
 	if err != nil {
 		res.Viols = append(res.Viols, viol("C20:harness", "cannot create chains: "+err.Error(), nil))
